@@ -33,7 +33,7 @@ ASSUMPTIONS = ['evaluate_bounded is excluded (interpreter-wide recursion limit),
                'no database change while an enumeration is suspended within one engine (that is C14)']
 
 NAMES = ['p', 'q', 't']
-PROBES = [('p', 1), ('q', 1), ('t', 1), ('p', 2), ('sp', 2)]
+PROBES = [('p', 1), ('q', 1), ('t', 1), ('p', 2), ('sp', 2), ('z0', 0)]
 
 
 def plan(tier, seed):
@@ -216,7 +216,9 @@ def engine_history(rng, eid, nsteps):
         elif r < 0.4 and not open_q:
             hist.append(('run', 'retract', [C(rng.choice(['p', 'q']), V('R%d' % sid))], rng.choice([1, None])))
         elif r < 0.47:
-            hist.append(('register', rng.choice(['q', 't']), 1, [(A('e%d_py%d' % (eid, sid)),)], rng.choice(['inferred', 'explicit'])))
+            ar = rng.choice([1, 1, 2, 0])
+            nm = rng.choice(['q', 't']) if ar == 1 else ('p' if ar == 2 else 'z0')
+            hist.append(('register', nm, ar, [tuple(A('e%d_py%d_%d' % (eid, sid, j)) for j in range(ar))], rng.choice(['inferred', 'inferred', 'explicit'])))
         elif r < 0.5 and not open_q:
             hist.append(('clear',))
         elif r < 0.55:
